@@ -71,3 +71,14 @@ Theorem C14_path_text_faithful : forall fs d, Forall frag_ok fs ->
     (Forall no_single fs -> print_path fs' = print_path fs).
 Proof. exact path_text_faithful. Qed.
 Print Assumptions C14_path_text_faithful.
+
+
+(* BracketString: the bracketed text of a path without descents parses back as well (both wildcards
+   as the bracketed one); with a descent it does not - the recorded finding C14 BracketString [..],
+   here as a fact of the model *)
+Theorem C14_bracket_text_round_trip : forall fs, Forall frag_ok fs -> Forall no_descent fs ->
+  parse_path (print_path_b fs) = Some (map norm_frag_b fs).
+Proof. exact bracket_text_round_trip. Qed.
+Theorem C14_bracket_descent_refuted : parse_path (print_path_b [NDescent; NChild [x61]]) = None.
+Proof. exact bracket_descent_refuted. Qed.
+Print Assumptions C14_bracket_text_round_trip.
